@@ -50,6 +50,9 @@ type Case struct {
 	// SrvOpt: server-option class of socket lanes ("", conn-timeout-small,
 	// conn-timeout-large, prefix). PaceMs: the client pauses that long
 	// between its messages. Members: gzip member layout of the body.
+	// KnownLen: the in-process HTTP request carries Content-Length =
+	// len(Body) instead of an unknown length (chunked / h2 without one).
+	KnownLen bool `json:"known_length,omitempty"`
 	// CT: media type of HttpBody uploads (Content-Type) and downloads
 	// (Accept and HttpBody.content_type); "" = application/x-verif.
 	CT string `json:"body_content_type,omitempty"`
@@ -370,6 +373,10 @@ func (c *Case) inprocRequest(id string) *http.Request {
 		}
 		if c.Shape == "upbidi" {
 			hdr.Set("Accept", "application/json")
+		}
+		if c.KnownLen && c.Trunc < 0 {
+			// the request announces its Content-Length (of the encoded body)
+			return wire.NewRequest("POST", c.httpPath(), "", hdr, rd, int64(len(c.Body)))
 		}
 		return wire.NewRequest("POST", c.httpPath(), "", hdr, rd, -1)
 	case "grpc":
